@@ -95,6 +95,14 @@ def tensor_repr(t, reg: Registry, with_bytes=False):
             rec = rec + (t.tobytes(),)
         except Exception as e:  # noqa: BLE001
             rec = rec + (("<err>", type(e).__name__),)
+        # ... and the element values in logical (row-major) order, which for packed dtypes and strided arrays is
+        # not the same observation as the byte string
+        try:
+            import numpy as _np
+
+            rec = rec + (_np.ascontiguousarray(t.numpy()).tobytes(),)
+        except Exception as e:  # noqa: BLE001
+            rec = rec + (("<err>", type(e).__name__),)
     return rec
 
 
